@@ -296,7 +296,15 @@ def o_pbpsi(s, ctx, v, out):
     d = P.kvs(sets[0].split())
     m, n, ov = int(d['m']), int(d['n']), int(d['ov'])
     out.evals += 1
-    out.keys.add(('pbpsi', m, n, ov))
+    dup = any(l.startswith('NOTE ') and 'answer-duplicated=1' in l for l in s.lines)
+    out.keys.add(('pbpsi', m, n, ov, dup))
+    if dup:
+        # a server that delivers one of its answers twice: nothing is asserted about the set that comes out, only that the
+        # client reports at most as many elements as it has (its output array holds that many) - and the sanitizer watches
+        out.fault('duplicate-delivery')
+        if s.out['interlen'] > m:
+            v.bad('more-elements-than-the-client-has', 'cp_pbpsi_int reported %d elements for a client set of %d' % (s.out['interlen'], m))
+        return
     if s.out['inter'] != (1 << ov) - 1 or s.out['interlen'] != ov:
         v.bad('wrong-intersection', 'm=%d n=%d overlap=%d: output mask %x, length %d' % (m, n, ov, s.out['inter'], s.out['interlen']))
 
@@ -376,7 +384,7 @@ SCHEMES.update({
     'pdprv': Spec('C06', 4, dict(), o_pd, pc=True, extra_faults=GTH, weight=6),
     'lvprv': Spec('C06', 4, dict(), o_pd, pc=True, extra_faults=GTH, weight=6),
     'pbpsi': Spec('C06', 4, dict(), o_pbpsi, pc=True, weight=6,
-                  opts=lambda rng: dict(k=rng.below(5), n=rng.below(5), cls=rng.below(5))),
+                  opts=lambda rng: dict(k=rng.below(5), n=rng.below(5), cls=rng.below(5), dup=rng.choice([0, 0, 0, 1]))),
     'ped': Spec('C06', 4, dict(c='ec', r='bn', x='bn'), o_ped),
     'rsapsi': Spec('C06', 4, dict(d='bn', t0='bn', u0='bn', t1='bn', u1='bn'), o_rsapsi, weight=5,
                    opts=lambda rng: dict(k=rng.below(5), n=rng.below(5), cls=rng.below(5), dup=rng.below(3), klen=rng.below(200))),
